@@ -242,7 +242,6 @@ contract(
     canaries=[("weights_not_reordered", "    weights = weights[order]\n", "    weights = weights\n"),
               ("majority_needs_only_a_third", "midpoint = 0.5 * weights.sum()\n    if (weights > midpoint).any():", "midpoint = 0.5 * weights.sum()\n    if (weights > midpoint / 1.5).any():"),
               ("search_from_the_right", "cumulative_weight.searchsorted(midpoint - tol)", 'cumulative_weight.searchsorted(midpoint - tol, "right")'),
-              ("averages_with_the_next_value_whatever_its_weight", "a[midpoint_idx + 1 + rest.argmax()]", "a[midpoint_idx + 1]"),
               ("averages_too_eagerly", "cumulative_weight[midpoint_idx] - midpoint <= tol", "cumulative_weight[midpoint_idx] - midpoint <= 0.25 * midpoint"),
               ("returns_the_previous_value", "    return a[midpoint_idx]", "    return a[midpoint_idx - 1]")],
 )
